@@ -11,6 +11,9 @@ import (
 )
 
 func main() {
+	if os.Getenv("VTRACE") != "" {
+		goja.VerifSink = func(r *goja.Runtime, line []byte) { fmt.Fprintln(os.Stderr, string(line)) }
+	}
 	vm := goja.New()
 	natives.Install(vm)
 	vm.Set("print", func(call goja.FunctionCall) goja.Value {
